@@ -118,6 +118,12 @@ pub struct Outcome {
     pub counters: BTreeMap<String, u64>,
     pub tape: Vec<u32>,
     pub trace: Vec<String>,
+    /// simulated runs executed inside this evaluation beyond the first (fault enumeration runs one per fault position)
+    pub extra_evals: u64,
+    /// distinct non-trivial inner runs (hashes), when the evaluation enumerates several
+    pub extra_distinct: Vec<u64>,
+    /// when the failing execution was a specialisation of the case (e.g. one fault position), the workload to replay
+    pub work_override: Option<Value>,
 }
 
 pub struct PropInfo {
@@ -170,7 +176,7 @@ pub fn outcome_from(r: detsim::RunResult, nontrivial: bool, shape: u64, sig: imp
     if r.leaked_threads > 0 {
         counters.insert("harness.leaked_threads".into(), r.leaked_threads as u64);
     }
-    Outcome { fail, digest: r.digest, steps: r.steps, switches: r.switches, threads: r.max_threads, nontrivial, shape, counters, tape: r.tape, trace: r.trace }
+    Outcome { fail, digest: r.digest, steps: r.steps, switches: r.switches, threads: r.max_threads, nontrivial, shape, counters, tape: r.tape, trace: r.trace, extra_evals: 0, extra_distinct: vec![], work_override: None }
 }
 pub fn truncate(s: &str, n: usize) -> String {
     if s.len() <= n {
